@@ -15,7 +15,7 @@ package corr
 // now (bounds, pacer = callback = getter).  Every other op prints the same deterministic line on
 // both sides (`wr err=…`).
 //
-// ops: cfg init= min= max= pacer=noop|leaky ext=<1: TWCC header extension, 0: none (RFC 8888)> | sent n= size= gap=<µs> | adv us=
+// ops: cfg init= min= max= pacer=noop|leaky ext=<1: TWCC header extension, 0: none (RFC 8888)> [pcerr=<1: the pacer's Close returns an error>] | sent n= size= gap=<µs> | adv us=
 //      | fb kind=twcc|8888 base=<first seq> a=<arrival µs or x, comma separated> | close
 
 import (
@@ -38,8 +38,23 @@ import (
 
 type gccRecPacer struct {
 	gcc.Pacer
-	mu    sync.Mutex
-	rates []int
+	mu       sync.Mutex
+	rates    []int
+	closeErr error // what Close returns (an application supplied pacer may fail to close)
+	closed   bool
+}
+
+var errGccPacerClose = errors.New("pacer close failed")
+
+func (p *gccRecPacer) Close() error {
+	p.mu.Lock()
+	was := p.closed
+	p.closed = true
+	p.mu.Unlock()
+	if !was {
+		_ = p.Pacer.Close()
+	}
+	return p.closeErr
 }
 
 func (p *gccRecPacer) SetTargetBitrate(r int) {
@@ -124,8 +139,12 @@ func gccSession(t *testing.T, ops []string, o *Out, onFb func(gccObs, int, int))
 				mx, ok3 := c17NatOK(m, "max", 2_000_000_000)
 				pk := m["pacer"]
 				ext := m["ext"]
+				pcerr, havePc := m["pcerr"]
+				if !havePc {
+					pcerr = "0"
+				}
 				if !ok1 || !ok2 || !ok3 || bwe != nil || (pk != "noop" && pk != "leaky") || (ext != "0" && ext != "1") ||
-					mn < 1 || mn > ini || ini > mx {
+					(pcerr != "0" && pcerr != "1") || mn < 1 || mn > ini || ini > mx {
 					o.P("bad-op")
 					continue
 				}
@@ -133,6 +152,9 @@ func gccSession(t *testing.T, ops []string, o *Out, onFb func(gccObs, int, int))
 					rec = &gccRecPacer{Pacer: gcc.NewNoOpPacer()}
 				} else {
 					rec = &gccRecPacer{Pacer: gcc.NewLeakyBucketPacer(ini)}
+				}
+				if pcerr == "1" {
+					rec.closeErr = errGccPacerClose
 				}
 				var err error
 				bwe, err = gcc.NewSendSideBWE(gcc.SendSideBWEInitialBitrate(ini), gcc.SendSideBWEMinBitrate(mn),
@@ -241,9 +263,20 @@ func gccSession(t *testing.T, ops []string, o *Out, onFb func(gccObs, int, int))
 					o.P("bad-op")
 					continue
 				}
-				err := bwe.WriteRTCP(pkts, nil)
+				var err error
+				panicked := false
+				func() {
+					defer func() {
+						if recover() != nil {
+							panicked = true
+						}
+					}()
+					err = bwe.WriteRTCP(pkts, nil)
+				}()
 				synctest.Wait()
 				switch {
+				case panicked:
+					o.P("wr PANIC")
 				case err == nil:
 					o.P("wr err=nil")
 				case errors.Is(err, gcc.ErrSendSideBWEClosed):
@@ -280,12 +313,27 @@ func gccSession(t *testing.T, ops []string, o *Out, onFb func(gccObs, int, int))
 				prev = last.target
 				last = nil
 			case "close":
-				if bwe == nil || closed {
+				if bwe == nil {
 					o.P("bad-op")
 					continue
 				}
 				synctest.Wait()
-				_ = bwe.Close()
+				func() {
+					defer func() {
+						if recover() != nil {
+							o.P("close PANIC")
+						}
+					}()
+					err := bwe.Close()
+					switch {
+					case err == nil:
+						o.P("close err=nil")
+					case errors.Is(err, errGccPacerClose):
+						o.P("close err=pacer")
+					default:
+						o.P("close err=other")
+					}
+				}()
 				closed = true
 				synctest.Wait()
 			default:
@@ -325,7 +373,11 @@ func genGcc(r *Rng, tier string, idx int) Case {
 	if cl == "rfc8888" || (cl != "minabove100k" && r.Chance(1, 6)) {
 		ext = 0
 	}
-	ops := []string{fmt.Sprintf("cfg init=%d min=%d max=%d pacer=%s ext=%d", cfg.ini, cfg.mn, cfg.mx, pacer, ext)}
+	pcerr := 0
+	if r.Chance(1, 3) {
+		pcerr = 1 // an application supplied pacer whose Close fails
+	}
+	ops := []string{fmt.Sprintf("cfg init=%d min=%d max=%d pacer=%s ext=%d pcerr=%d", cfg.ini, cfg.mn, cfg.mx, pacer, ext, pcerr)}
 	nfb := r.Range(20, 60)
 	if tier == "thorough" {
 		nfb = r.Range(50, 300)
@@ -431,6 +483,25 @@ func genGcc(r *Rng, tier string, idx int) Case {
 		}
 		ops = append(ops, fmt.Sprintf("fb kind=%s base=%d a=%s", kind, tw&0xFFFF, strings.Join(a, ",")))
 		tw += n
+	}
+	// lifecycle tail: Close (the drawn pacer may fail to close), feedback of both kinds after Close,
+	// sometimes a second Close and feedback again
+	if cl == "closed" || r.Chance(1, 3) {
+		if closeAt < 0 {
+			ops = append(ops, "close")
+		}
+		tail := func() {
+			for _, k := range []string{"twcc", "8888"} {
+				if r.Chance(3, 4) {
+					ops = append(ops, fmt.Sprintf("fb kind=%s base=%d a=%d,%d", k, (tw-2)&0xFFFF, nowUs+1000, nowUs+2000))
+				}
+			}
+		}
+		tail()
+		if r.Chance(1, 3) {
+			ops = append(ops, "close")
+			tail()
+		}
 	}
 	// execute on the real code and interleave the observed TRACE lines
 	var traces []string
